@@ -281,9 +281,19 @@ def check_main(engine, prop, tiers, argv=None):
 
     def make_arg(i):
         rs = derive_seed(seed, engine.NAME + ":" + prop, i)
-        plan = engine.gen_plan(random.Random(rs), tier)
+        retries = 0
+        while True:
+            try:
+                plan = engine.gen_plan(random.Random(rs + retries), tier)
+                break
+            except Exception:
+                # a corner case of the plan generator must not turn into a broken check: draw again
+                # (deterministically) and report how often that happened
+                retries += 1
+                if retries > 5:
+                    raise
         return {"plan": plan, "run_seed": rs, "tape": None, "want_tape": False, "prop": prop,
-                "want_plan": i < args.first + 3}
+                "want_plan": i < args.first + 3, "plan_retries": retries}
 
     results = lanes.sweep(engine.execute, make_arg, range(args.first, args.first + nruns), budget_s=budget)
     wall_sweep = time.monotonic() - t0
@@ -432,6 +442,8 @@ def check_main(engine, prop, tiers, argv=None):
             json.dump(evidence, f, indent=1, default=lanes._json_default)
     for k in zero_probes:
         print(f"# WARNING reach probe '{k}' stayed at zero")
+    if n_viol:
+        exit_code = 1      # a confirmed, replayable violation decides the verdict even if other runs had harness trouble
     print(f"# {prop}: {len(done)}/{nruns} runs, {nontrivial} non-trivial ({len(pairs)} distinct), {n_viol} violations, "
           f"{sum(known_hits.values())} known-finding hits, {len(harness)} harness errors, faults fired {faults}, {wall:.1f}s")
     return exit_code
